@@ -44,9 +44,10 @@ CLIS = [
     ("--solver-threads", "1"),
     ("--solver-threads", "1", "--solver", "z3"),
     ("--solver-threads", "3"),
+    ("--solver-threads", "1"),
     (),
 ]
-INJECT = ["all", "all", "half", "all", "none"]
+INJECT = ["all", "all", "half", "all", "all", "half", "none"]
 
 # clauses of Trace_UnsatCache that are verdicts about the cache / about the fidelity of the model
 VIOLATION_CLAUSES = {"core-id-rebound", "hit-on-sat-query", "hit-truth-not-unsat", "hit-without-core", "core-not-subset",
@@ -197,7 +198,7 @@ def run(chk: Check, tier: str):
         # 2./3. paired runs
         t_pairs = time.time()
         batch = uc.UnsatcacheBatch()
-        on_summaries, on_recs = [], []
+        on_summaries = []
         shapes_seen = set()
         for case in cases:
             rec_off, out_off, metas = uc.unsatcache_run(case, cache=False, dump=work / "dump")
@@ -205,7 +206,6 @@ def run(chk: Check, tier: str):
             uc.unsatcache_oracle(rec_on, work / "oracle", f"c{case.index}", pool)
             s_off, s_on = uc.unsatcache_summary(rec_off, out_off), uc.unsatcache_summary(rec_on, out_on)
             on_summaries.append(s_on)
-            on_recs.append(rec_on)
             report_diffs(chk, case, uc.unsatcache_compare(s_off, s_on), "same process", s_off, s_on, rec_on, work)
             # counterexamples of the cache-on run whose values differ from the cache-off run: still models?
             for sig in s_on["order"]:
@@ -237,8 +237,14 @@ def run(chk: Check, tier: str):
             chk.count("evaluations", nq)
             for k in cores:
                 shapes_seen.add(k)
-            if hits:
-                chk.nontrivial(("hit", case.key()))
+            tno = 0
+            for e in rec_on.events:  # non-trivial = tests in which a core was stored / a query was answered by the cache
+                if e["e"] == "test":
+                    tno += 1
+                elif e["e"] == "core":
+                    chk.nontrivial(("core", case.key(), tno))
+                elif e["e"] == "check" and e["hit"]:
+                    chk.nontrivial(("hit", case.key(), tno))
             chk.sample({"case": case.index, "cli": case.cli, "inject": case.inject, "tests": [m.tree[:160] for m in metas],
                         "queries": nq, "unsat": nunsat, "cores": cores, "hits": hits,
                         "exit_codes": [r.exitcode for r in out_on.results]})
@@ -249,8 +255,8 @@ def run(chk: Check, tier: str):
         t_join = time.time()
         bg.join()
         base = bg.results["baseline"]
-        for case, s_off, s_on, rec_on in zip(cases[:nfresh], base, on_summaries, on_recs):
-            report_diffs(chk, case, uc.unsatcache_compare(s_off, s_on), "fresh process", s_off, s_on, rec_on, work)
+        for case, s_off, s_on in zip(cases[:nfresh], base, on_summaries):
+            report_diffs(chk, case, uc.unsatcache_compare(s_off, s_on), "fresh process", s_off, s_on, None, work)
             chk.count("tests_compared_with_fresh_process", case.ntests)
         model_check_verdicts(chk, tier, bg)
 
@@ -259,7 +265,7 @@ def run(chk: Check, tier: str):
                   "flip_hit": {"hit-without-core"}, "truth_sat": {"hit-truth-not-unsat"}}
         controls = {}
         for how in wanted:
-            for t in range(1, len(on_recs) + 1):
+            for t in range(1, len(cases) + 1):
                 tid = batch.corrupt_copy(t, how)
                 if tid:
                     controls[tid] = how
@@ -287,7 +293,7 @@ def run(chk: Check, tier: str):
         partial = {}
         for mutant, cfg in (("nopin_futures", "MC_Trace_UnsatCache_termvars.cfg"), ("nopin_termvars", "MC_Trace_UnsatCache_futures.cfg")):
             pb = uc.UnsatcacheBatch()
-            for case in cases[: (1 if tier == "quick" else 6)]:
+            for case in cases[: (0 if tier == "quick" else 6)]:
                 rec_m, out_m, _ = uc.unsatcache_run(case, cache=True, dump=work / "dump", mutant=mutant)
                 uc.unsatcache_oracle(rec_m, work / "oracle", f"m{mutant}{case.index}", pool)
                 pb.add(rec_m, f"{mutant}-case{case.index}")
@@ -298,7 +304,7 @@ def run(chk: Check, tier: str):
         t_val = time.time()
         res, r = batch.validate(work)
         chk.add_tlc(r)
-        nreal = len(on_recs)
+        nreal = len(cases)
         for tid in range(1, nreal + 1):
             v = res[tid]
             case = cases[tid - 1]
@@ -328,6 +334,15 @@ def run(chk: Check, tier: str):
             if mutant == "nopin" and not whys:
                 raise MachineryError("negative control: releasing both pins did not lead to a rejected log")
             chk.count("negative_controls_rejected")
+        if tier == "thorough":
+            # how far do the runs without pins get?  (NoPin model: only clauses about stored cores and hits reject)
+            nb = uc.UnsatcacheBatch()
+            for t in mutant_tids.get("nopin", []):
+                nb.traces.append(batch.traces[t - 1])
+            nb.family = batch.family
+            nres, nr = nb.validate(work, cfg="MC_Trace_UnsatCache_nopin.cfg")
+            chk.add_tlc(nr)
+            chk.cov["mutants"]["nopin"]["clauses_under_nopin_model"] = sorted(v["why"] for v in nres.values() if not v["ok"])
         for mutant, (pb, cfg) in partial.items():
             if not pb.traces:
                 continue
@@ -347,7 +362,7 @@ def run(chk: Check, tier: str):
             "so that infeasible assertion paths reach the solver; cache off vs --cache-solver in the same process and vs a fresh "
             "process; rotating --solver-threads 1/3/default and yices/z3; gc.collect() forced between paths and before every "
             "serialisation; every recorded log validated by TLC against Trace_UnsatCache (faithful pinning model) with the query's "
-            "own cache-off solver run as oracle; non-trivial = contracts in which the cache answered at least one query"
+            "own cache-off solver run as oracle; non-trivial = tests in which a core was stored or a query was answered by the cache"
         )
         chk.assumptions += [
             "constraint identity in the logs is the S-expression text of the z3 term at serialisation time",
